@@ -222,7 +222,7 @@ def run(ctx):
                        "n in {2,3,4,8} rendezvoused client threads per terminal action; non-trivial = rejection on a terminal task or a concurrent run; distinct by (scenario, op)")
     ctx.cov["clauses_proved"] = ["admission sound/complete w.r.t. the property's predicate (K1)", "terminal acts reject the seven actions (K1)",
                                  "checks precede writes (K1 on arm structure)", "serial clients: exactly one accepted (all n)"]
-    ctx.cov["clauses_not_proved"] = ["exactly-one under real interleaving: the model shows guard1 guard2 effect1 effect2 accepts both; decided on the engine with the rendezvous"]
+    ctx.cov["clauses_not_proved"] = ["that the lock read from the source (K1 actions_serialised) is held across check and write at run time: decided on the engine with concurrent clients and the rendezvous"]
 
 
 def replay(ctx, data):
